@@ -2074,6 +2074,20 @@ evhttp_find_header(const struct evkeyvalq *headers, const char *key)
 	return (NULL);
 }
 
+/* Number of header fields named 'key'. */
+static int
+evhttp_count_headers(const struct evkeyvalq *headers, const char *key)
+{
+	struct evkeyval *header;
+	int n = 0;
+
+	TAILQ_FOREACH(header, headers, next) {
+		if (evutil_ascii_strcasecmp(header->key, key) == 0)
+			++n;
+	}
+	return (n);
+}
+
 void
 evhttp_clear_headers(struct evkeyvalq *headers)
 {
@@ -2417,6 +2431,16 @@ evhttp_get_body(struct evhttp_connection *evcon, struct evhttp_request *req)
 	}
 	evcon->state = EVCON_READING_BODY;
 	xfer_enc = evhttp_find_header(req->input_headers, "Transfer-Encoding");
+	if (xfer_enc != NULL && req->kind == EVHTTP_REQUEST &&
+	    (evutil_ascii_strcasecmp(xfer_enc, "chunked") != 0 ||
+	     evhttp_count_headers(req->input_headers, "Transfer-Encoding") != 1)) {
+		/* The only transfer coding we implement is "chunked".  A request
+		 * whose Transfer-Encoding is anything else (other or several
+		 * codings, repeated field) must not be framed by guessing
+		 * (RFC 9112 6.1, 6.3): refuse it. */
+		evhttp_connection_fail_(evcon, EVREQ_HTTP_INVALID_HEADER);
+		return;
+	}
 	if (xfer_enc != NULL && evutil_ascii_strcasecmp(xfer_enc, "chunked") == 0) {
 		req->chunked = 1;
 		req->ntoread = -1;
